@@ -128,7 +128,8 @@ fn handle_generator_response(response_payload: Vec<u8>, output_dir: &Option<Stri
             let message = generator_diagnostic.message;
             return Err(Error::other(format!("the generator reported an error: {message}")));
         }
-        println!("{}", generator_diagnostic.message);
+        // (`println!` panics when stdout cannot be written to; nobody is left to tell about that.)
+        let _ = writeln!(std::io::stdout(), "{}", generator_diagnostic.message);
     }
     let mut diagnostics = Diagnostics::new();
 
